@@ -320,6 +320,9 @@ func (x *g) goal(d int) *rt.Term {
 }
 
 func (x *g) ball() *rt.Term {
+	if x.p(10, "userctx") { // an error/2 ball whose context is the program's own data
+		return rt.C("error", x.atom(), rt.C("info", x.v(), x.v()))
+	}
 	switch x.n(0, 4, "ball") {
 	case 0:
 		return x.atom()
@@ -335,6 +338,11 @@ func (x *g) ball() *rt.Term {
 }
 
 func (x *g) catcher() *rt.Term {
+	if x.p(8, "userctxcatcher") {
+		// (the formal is one of the program's own atoms: a built-in's error never matches, so its implementation
+		// defined context is not put to the test)
+		return rt.C("error", x.atom(), rt.C("info", x.v(), x.v()))
+	}
 	switch x.n(0, 6, "catcher") {
 	case 0, 1:
 		return x.v()
